@@ -28,7 +28,7 @@ func main() {
 	c := hx.New("C08")
 	defer c.Finish()
 	lib.Init()
-	total := c.Pick(640, 60000)
+	total := c.Pick(640, 40000)
 	per := total / c.NBatch
 	small := []regtable.Elem{}
 	for _, e := range lib.Pool {
